@@ -167,10 +167,10 @@ PctUnquote(s) == IF s = "" THEN ""
                    THEN DecodeOf(SubSeq(s, 2, 3)) \o PctUnquote(SubSeq(s, 4, Len(s)))
                    ELSE Ch(s, 1) \o PctUnquote(Tail1(s))
 
-\* errors="replace" flavour (urllib.parse.parse_qs): an undecodable byte becomes U+FFFD
+\* errors="replace" flavour: an undecodable byte becomes U+FFFD (what parse_qs did before fix d7962e4)
 UnquoteReplace(s) == ReplaceAll(PctUnquote(s), HI, REPL)
-\* application/x-www-form-urlencoded value decoding (parse_qs): "+" is a space, then unquote with errors=replace
-FormDecode(s) == UnquoteReplace(ReplaceAll(s, "+", " "))
+\* application/x-www-form-urlencoded value decoding (parse_qs(.., errors="surrogateescape")): "+" is a space, then unquote
+FormDecode(s) == PctUnquote(ReplaceAll(s, "+", " "))
 \* what a form-submitting client sends (quote_plus): every reserved byte percent-coded, space as "+"
 FormEncode(s) == ReplaceAll(ReplaceAll(PctQuote(s), "/", "%2F"), "%20", "+")
 \* query component as a Gemini client sends it: percent-coded, space as %20
@@ -217,7 +217,7 @@ Target(p, e) ==
          host |-> IF e.host = "" THEN ServerName ELSE e.host,
          port |-> IF e.port = 0 THEN ServerPort ELSE e.port, href |-> ""]
     ELSE LET q    == PctQuote(e.sel)
-             loc  == CASE p \in {"H", "HS", "W"} -> q
+             loc  == CASE p \in {"H", "HS", "W"} -> (IF q = "" THEN "/" ELSE q)      \* "/" since fix 0472d31 (was "")
                        [] p = "M" -> (IF e.type = "7" THEN QueryPrefix ELSE "") \o (IF q = "" THEN "/" ELSE q)
                        [] p = "S" -> (IF q = "" THEN "/" ELSE q)
              url0 == IF IsUrlSel(e.sel) THEN UrlOf(e.sel)
